@@ -283,7 +283,7 @@ def run(model, rep, tier):
                            if leaks and leaks[0].ast is not None else f"`{L}` is never entered by `with` on some path"), stmt="writer-local " + L)
     rep.floor("R-12.7", n_w, 5)
     rep.share(model, "C19", {"R-19.1"}, "R-12.9", "btreezone.WritableVersion clones version.nodes and version.delegations; readers keep using the originals while the writer runs")
-    rep.share(model, "C10", {"R-10.4"}, "R-12.8", "versioned.Zone._end_write (slot release and wake-up) runs only from Transaction._end, reached from __exit__/commit/rollback")
+    rep.share(model, "C10", {"R-10.4", "R-10.5"}, "R-12.8", "versioned.Zone._end_write (slot release and wake-up) runs only from Transaction._end, reached from __exit__/commit/rollback")
     rep.meta["explanation"] = (
         "Guarded-by analysis over the whole package for the six admission/retention fields of dns.versioned.Zone, call-site check of the "
         "*_unlocked convention, transitive no-blocking-under-lock check, and CFG (post-)dominance rules for admission test, wake-up "
